@@ -434,22 +434,19 @@ def keyLength (c : Col) : Nat :=
   | Option.none => 0
   | some i => i + 1
 
-/-- one iteration of the loop body of `remove_shift`. -/
-def shiftStep (index : Nat) (known : KList) : KList :=
-  match known.get (Key.ofIdx (index + 1)) with
-  | some v => (known.remove (Key.ofIdx (index + 1))).insert (Key.ofIdx index) v
+/-- one iteration of the loop body of `remove_shift`: the known element at `i + 1` (if any) moves
+    to `i`. -/
+def shiftStep (known : KList) (i : Nat) : KList :=
+  match known.get (Key.ofIdx (i + 1)) with
+  | some v => (known.remove (Key.ofIdx (i + 1))).insert (Key.ofIdx i) v
   | Option.none => known
 
-def iter {α : Type} (f : α → α) : Nat → α → α
-  | 0, a => a
-  | n + 1, a => iter f n (f a)
-
-/-- `Collection<Index>::remove_shift`, as written: the loop runs `min_length - index` times and
-    every iteration moves `index + 1` to `index` (it never advances). -/
+/-- `Collection<Index>::remove_shift`: the known element at `index` is removed and
+    `for i in index..min_length` every later known element moves one position to the left. -/
 def removeShift (c : Col) (index : Nat) : Col :=
   let minLength := c.minLength
   let known := c.known.remove (Key.ofIdx index)
-  .mk (iter (shiftStep index) (minLength - index) known) c.unknown
+  .mk ((List.range (minLength - index)).foldl (fun kn j => shiftStep kn (index + j)) known) c.unknown
 
 end Col
 
